@@ -187,7 +187,7 @@ func (g *vwGen) event(preferSkippable bool) *historypb.HistoryEvent {
 	m.Set(fd, protoreflect.ValueOfMessage(sub))
 	// links: sometimes several, the first without a namespace
 	nl := 0
-	if g.rng.chance(1, 3) {
+	if g.rng.chance(1, 2) {
 		nl = 1 + g.rng.below(3)
 	}
 	for i := 0; i < nl; i++ {
@@ -195,8 +195,8 @@ func (g *vwGen) event(preferSkippable bool) *historypb.HistoryEvent {
 		if g.nsFixed != "" {
 			ns = g.nsFixed
 		}
-		if i == 0 && g.rng.chance(1, 2) {
-			ns = ""
+		if i == 0 && nl > 1 && g.rng.chance(2, 3) {
+			ns = "" // the first link names no namespace, a later one does
 		}
 		if g.rng.chance(1, 6) {
 			ev.Links = append(ev.Links, &commonpb.Link{Variant: &commonpb.Link_BatchJob_{BatchJob: &commonpb.Link_BatchJob{JobId: "job"}}})
